@@ -447,6 +447,12 @@ func visitInstr(fr *frame, instr ssa.Instruction) continuation {
 }
 
 // prepareCall determines the function value and argument values for a
+// goRuntimeError is a runtime.Error raised on behalf of the target program.
+type goRuntimeError string
+
+func (e goRuntimeError) Error() string { return string(e) }
+func (e goRuntimeError) RuntimeError() {}
+
 // function call in a Call, Go or Defer instruction, performing
 // interface method lookup if needed.
 func prepareCall(fr *frame, call *ssa.CallCommon) (fn value, args []value) {
@@ -458,7 +464,8 @@ func prepareCall(fr *frame, call *ssa.CallCommon) (fn value, args []value) {
 		// Interface method invocation.
 		recv := v.(iface)
 		if recv.t == nil {
-			panic("method invoked on nil interface")
+			// as in Go: a runtime panic of the target program, not an engine failure
+			panic(goRuntimeError("invalid memory address or nil pointer dereference (method " + call.Method.Name() + " invoked on nil interface)"))
 		}
 		if f := lookupMethod(fr.i, recv.t, call.Method); f == nil {
 			// Unreachable in well-typed programs.
